@@ -15,6 +15,8 @@ Obs2     == {100, 101}
 Nodes0o  == {0, 100}
 R123     == {1, 2, 3}
 R0123    == {0, 1, 2, 3}
+NoFix    == {}
+AllFixes == {"attach", "stale", "mono"}
 
 \* ---------------------------------------------------------------- scripted block trees
 \* A script is a sequence of <<bp, parent>> or <<bp, parent, conf>> in creation order (parent = index of an earlier
@@ -47,16 +49,24 @@ T4s == Tree(<< <<0,0>>, <<1,1>>, <<2,2>>,
                <<3,0>>, <<3,4>>, <<3,5>>, <<3,6>>,
                <<0,7>>, <<1,8>>, <<3,9>> >>)
 
-\* T3l: the block tree of a behaviour of the full protocol with 3 honest producers (found by simulation) in which a
-\* node's LIB goes from height 2 back to height 1: the rollback window recomputes a proposal to a lower block (UNCOND)
-T3l == Tree(<< <<2,0,1>>, <<1,1,2>>, <<0,2,3>>, <<2,3,3>>, <<2,4,1>>, <<1,4,3>>, <<0,4,2>>, <<0,7,1>>, <<0,8,1>>,
-               <<1,6,1>>, <<1,10,1>>, <<2,11,3>>, <<0,9,1>>, <<2,12,1>> >>)
-
 \* T4b: producer 3 is Byzantine and fills Confirms freely: d1,d2,d3 with Confirms 1,2,3 give d1 three confirmations
 \* (PERBLOCK) and it is the only proposal (PARTIAL): an observer that has only seen them makes d1 irreversible;
 \* o1..o5 by the honest 0,1,2 make o1 irreversible for an observer that has only seen those.
 T4b == Tree(<< <<0,0>>, <<1,1>>, <<2,2>>, <<0,3>>, <<1,4>>,
                <<3,0,1>>, <<3,6,2>>, <<3,7,3>> >>)
+
+\* T4e: like T4, but the producer that builds alone (3, Byzantine here: it has seen o1) forks exactly AT the LIB block
+\* o1: x2..x6 on o1 are longer than o1..o5, the fork point has the LIB's number, the reorganisation is allowed
+T4e == Tree(<< <<0,0>>, <<1,1>>, <<2,2>>, <<0,3>>, <<1,4>>,
+               <<3,1>>, <<3,6>>, <<3,7>>, <<3,8>>, <<3,9>> >>)
+
+\* T3w: 3 honest producers, a chain longer than the rebuild window (3*required = 9 blocks): heights 1..12 round robin,
+\* then producer 0 misses block 12 and builds 12' on 11, 1 and 2 follow (13', 14'): rollback and restarts with a
+\* window that no longer starts at block 1.  The one-block fork at the tip is also the simplest way to see the LIB go
+\* DOWN: the rollback recomputes producer 2's proposal from the window (lower than the one it had made with block 12),
+\* and the next calcLIB result is assigned unconditionally (UNCOND).
+T3w == Tree(<< <<0,0>>, <<1,1>>, <<2,2>>, <<0,3>>, <<1,4>>, <<2,5>>, <<0,6>>, <<1,7>>, <<2,8>>, <<0,9>>, <<1,10>>, <<2,11>>,
+               <<0,11>>, <<1,13>>, <<2,14>> >>)
 
 \* ACTION_CONSTRAINT printing every transition (generation configs only)
 GenLog == LogTransition(view, lastAct', view')
